@@ -273,7 +273,15 @@ func (setupEngine) Run(ctx *fw.Ctx, cs any) {
 		return
 	}
 	if out.TimedOut {
-		ctx.Inconclusive("setup: child for %s did not finish within the watchdog", conf)
+		if frame := lockFrame(out.Stderr); frame != "" {
+			where := "setup"
+			if out.DiedAt >= 0 && out.DiedAt < len(desc) {
+				where = "request {" + desc[out.DiedAt] + "}"
+			}
+			ctx.Viol("C19", "handler-never-returns:"+c.Plugin+":"+frame, "%s (log level %s) was accepted at start-up; handling of %s never returned: a goroutine is parked on a lock below %s\n%s", conf, job.LogLevel, where, frame, firstLines(out.Stderr, 30))
+		} else {
+			ctx.Inconclusive("setup: child for %s did not finish within the watchdog", conf)
+		}
 		return
 	}
 	if out.Died {
